@@ -326,6 +326,21 @@ theorem loop_iterations_charged (budget : Int) (hb : 1 ≤ budget) (prog : Array
     · omega
     · exact absurd he x
 
+/-- **loop_ends_within_budget** (the evaluation ends): no program, whatever it loops or calls, keeps the interpreter loop turning
+    for as many turns as the budget has ticks - after `budget` turns it has returned or the budget has expired. -/
+theorem loop_ends_within_budget (budget : Int) (hb : 1 ≤ budget) (prog : Array Ins) (orc : Nat → Bool) (fuel : Nat)
+    (hf : budget ≤ fuel) : (lrun prog orc fuel (LSt.start budget)).1 ≠ .running := by
+  intro hrun
+  have hi : LInv budget (LSt.start budget) := ⟨by simp [LSt.start], by simp [LSt.start]⟩
+  have hp : 0 < (LSt.start budget).cost := by show 0 < budget; omega
+  have h1 := lrun_running budget prog orc fuel (LSt.start budget) hi hp hrun
+  have h2 := lrun_spec budget prog orc fuel (LSt.start budget) hi hp
+  obtain ⟨⟨_, hsum⟩, hpos⟩ := h2
+  rcases hpos with ⟨x, _⟩ | ⟨_, y⟩
+  · rw [hrun] at x; cases x
+  · have : (LSt.start budget).ticks = 0 := rfl
+    omega
+
 /-- a spinning loop `L: bbranch L` under a budget of 50 expires after exactly 50 backward jumps' worth of ticks -/
 example : (lrun #[.back 0 1] (fun _ => true) 1000 (LSt.start 50)).1 = .expired ∧
     (lrun #[.back 0 1] (fun _ => true) 1000 (LSt.start 50)).2.ticks = 50 ∧
